@@ -162,7 +162,7 @@ def inject_unit(snapshot, unit):
     if not os.path.exists(target):
         raise FileNotFoundError("anchor lost: %s not in snapshot" % unit["file"])
     src = open(target).read()
-    modname = "verif_harness"
+    modname = "verif_harness_" + unit["name"]
     src += build_module(unit["name"], text, harnesses, modname)
     open(target, "w").write(src)
     for h in harnesses:
